@@ -86,7 +86,30 @@ theorem sread_short_mono (cfg : Cfg) (st : St) (n : Nat) (h : st.short = true) :
     (st.sread cfg n).2.short = true := by
   unfold St.sread; split
   · simp [h]
-  · split <;> simp [h]
+  · split
+    · exact h
+    · split <;> simp [h]
+
+/-- a complete read on the in-memory stream: the bytes, and the state with only the position advanced
+    (flags aside) -/
+theorem sread_ok (cfg : Cfg) (hs : cfg.sticky = false) (st : St) (n : Nat) (h : st.pos + n ≤ st.inp.length) :
+    (st.sread cfg n).1 = (st.inp.drop st.pos).take n ∧ (st.sread cfg n).2.obj = st.obj ∧
+    (st.sread cfg n).2.inp = st.inp ∧ (st.sread cfg n).2.pos = st.pos + n ∧ (st.sread cfg n).2.halt = st.halt ∧
+    (st.sread cfg n).2.short = st.short ∧ (st.sread cfg n).2.out = st.out := by
+  unfold St.sread
+  simp only [hs, Bool.false_and, Bool.false_eq_true, if_false, Bool.not_false, and_true]
+  split
+  · rename_i h0; subst h0; simp
+  · simp [h]
+
+theorem sread_fail (cfg : Cfg) (hs : cfg.sticky = false) (st : St) (n : Nat) (hpos : st.pos ≤ st.inp.length)
+    (h : ¬ st.pos + n ≤ st.inp.length) :
+    (st.sread cfg n).2.short = true ∧ (st.sread cfg n).2.halt = st.halt ∧ (st.sread cfg n).2.obj = st.obj := by
+  unfold St.sread
+  simp only [hs, Bool.false_and, Bool.false_eq_true, if_false, Bool.not_false, and_true]
+  split
+  · rename_i h0; subst h0; omega
+  · simp [h]
 
 theorem syncLoop_short_mono (cfg : Cfg) (sigF fuel tmp : Nat) (st : St) (h : st.short = true) :
     (syncLoop cfg sigF fuel tmp st).short = true := by
@@ -153,6 +176,26 @@ theorem scalarMerge_full (w old : Nat) (got : Bytes) (h : got.length = w) : scal
 theorem take_drop_length (l : Bytes) (p n : Nat) (h : p + n ≤ l.length) : ((l.drop p).take n).length = n := by
   simp; omega
 
+/-- `is.read(f.data(), n)` into a buffer of exactly `n` bytes -/
+theorem exec_rdBuf (cfg : Cfg) (hs : cfg.sticky = false) (f : Nat) (e : Expr) (nb : Nat) (st : St)
+    (he : e.eval st.obj = nb) (hbl : (st.obj.buf f).length = nb) (h0 : st.halt = .none)
+    (hpos : st.pos ≤ st.inp.length) :
+    if st.pos + nb ≤ st.inp.length then
+      ((Stmt.rdBuf f e).exec cfg st).obj = st.obj.setBuf f ((st.inp.drop st.pos).take nb) ∧
+      ((Stmt.rdBuf f e).exec cfg st).inp = st.inp ∧ ((Stmt.rdBuf f e).exec cfg st).pos = st.pos + nb ∧
+      ((Stmt.rdBuf f e).exec cfg st).halt = .none ∧ ((Stmt.rdBuf f e).exec cfg st).short = st.short ∧
+      ((Stmt.rdBuf f e).exec cfg st).out = st.out
+    else ((Stmt.rdBuf f e).exec cfg st).short = true := by
+  simp only [Stmt.exec, he, hbl, Nat.lt_irrefl, if_false]
+  split
+  · rename_i hw
+    obtain ⟨h1, h2, h3, h4, h5, h6, h7⟩ := sread_ok cfg hs st nb hw
+    refine ⟨?_, h3, h4, by rw [h5, h0], h6, h7⟩
+    simp only [h1, h2]
+    rw [merge_full _ _ (by rw [take_drop_length _ _ _ hw, hbl]; exact Nat.le_refl _)]
+  · rename_i hw
+    exact (sread_fail cfg hs st nb hpos hw).1
+
 /-- what the reader's outcome for a successfully decoded prefix looks like -/
 structure RdOk (st st1 : St) (o1 : Obj) (s1 : Bytes) : Prop where
   obj : st1.obj = o1
@@ -172,51 +215,72 @@ theorem exec_item_rd (cfg : Cfg) (hs : cfg.sticky = false) (i : Item) (st : St)
               ((Stmt.block i.rdStmts).exec cfg st).halt ≠ .none := by
   cases i with
   | scalar f w =>
-    simp only [decItem, Item.rdStmts, exec_block_cons, exec_block_nil, Stmt.exec, St.sread, hs,
-      Bool.false_and, List.length_drop]
+    simp only [decItem, Item.rdStmts, exec_block_cons, exec_block_nil, Stmt.exec, List.length_drop]
     by_cases hw : st.pos + w ≤ st.inp.length
     · have hw' : w ≤ st.inp.length - st.pos := by omega
-      simp only [hw, hw', if_true, h0, Bool.false_eq_true, if_false]
-      refine ⟨?_, rfl, hw, ?_, by simp [h0], rfl, rfl⟩
-      · simp only [scalarMerge_full w _ _ (take_drop_length _ _ _ hw)]
-      · simp [List.drop_drop]
+      obtain ⟨h1, h2, h3, h4, h5, h6, h7⟩ := sread_ok cfg hs st w hw
+      simp only [hw', if_true, h5, h0]
+      refine ⟨?_, h3, by rw [h4]; exact hw, ?_, by simp [h5, h0], h6, h7⟩
+      · simp only [h1, h2, scalarMerge_full w _ _ (take_drop_length _ _ _ hw)]
+      · simp [h4, List.drop_drop]
     · have hw' : ¬ w ≤ st.inp.length - st.pos := by omega
-      simp [hw, hw', h0]
+      obtain ⟨h1, h2, _⟩ := sread_fail cfg hs st w hpos hw
+      simp only [hw', if_false, h2, h0, if_true]
+      exact Or.inl h1
   | fixed f n =>
     have hl := harr f n rfl
-    simp only [decItem, Item.rdStmts, exec_block_cons, exec_block_nil, Stmt.exec, St.sread, hs,
-      Bool.false_and, List.length_drop, Expr.eval, hl, Nat.lt_irrefl, if_false]
+    simp only [decItem, Item.rdStmts, exec_block_cons, exec_block_nil, Stmt.exec, List.length_drop, Expr.eval, hl,
+      Nat.lt_irrefl, if_false]
     by_cases hw : st.pos + n ≤ st.inp.length
     · have hw' : n ≤ st.inp.length - st.pos := by omega
-      simp only [hw, hw', if_true, h0, Bool.false_eq_true, if_false]
-      refine ⟨?_, rfl, hw, ?_, by simp [h0], rfl, rfl⟩
-      · simp only [merge_full _ (st.obj.buf f) (by rw [take_drop_length _ _ _ hw]; omega)]
-      · simp [List.drop_drop]
+      obtain ⟨h1, h2, h3, h4, h5, h6, h7⟩ := sread_ok cfg hs st n hw
+      simp only [hw', if_true, h5, h0]
+      refine ⟨?_, h3, by rw [h4]; exact hw, ?_, by simp [h5, h0], h6, h7⟩
+      · simp only [h1, h2, merge_full _ (st.obj.buf f) (by rw [take_drop_length _ _ _ hw]; omega)]
+      · simp [h4, List.drop_drop]
     · have hw' : ¬ n ≤ st.inp.length - st.pos := by omega
-      simp [hw, hw', h0]
+      obtain ⟨h1, h2, _⟩ := sread_fail cfg hs st n hpos hw
+      simp only [hw', if_false, h2, h0, if_true]
+      exact Or.inl h1
   | var f ew len =>
-    simp only [decItem, Item.rdStmts, exec_block_cons, exec_block_nil, Stmt.exec, Expr.eval, List.length_drop]
-    by_cases hc : st.obj.num len * ew ≤ cfg.cap
-    · have hc' : ¬ cfg.cap < st.obj.num len * ew := by omega
-      simp only [hc, hc', if_false, true_and, h0, if_true, cntExpr_eval, Obj.setBuf_num, Obj.setBuf_buf_same,
-        List.length_append, List.length_take, zeros_length, St.sread, hs, Bool.false_and, Bool.false_eq_true]
-      have hlen : min (st.obj.num len * ew) (st.obj.buf f).length + (st.obj.num len * ew - (st.obj.buf f).length)
-          = st.obj.num len * ew := by omega
-      simp only [hlen, Nat.lt_irrefl, if_false]
-      by_cases hw : st.pos + st.obj.num len * ew ≤ st.inp.length
-      · have hw' : st.obj.num len * ew ≤ st.inp.length - st.pos := by omega
-        simp only [hw, hw', if_true, h0]
-        refine ⟨?_, rfl, hw, ?_, by simp [h0], rfl, rfl⟩
-        · simp only []
-          rw [merge_full _ _ (by rw [take_drop_length _ _ _ hw]; simp; omega)]
+    obtain ⟨sobj, sinp, spos, sgood, seof, sshort, sout, shalt⟩ := st
+    simp only at h0 hpos
+    subst h0
+    simp only [decItem, Item.rdStmts, exec_block_cons, exec_block_nil, List.length_drop]
+    by_cases hc : sobj.num len * ew ≤ cfg.cap
+    · have hc' : ¬ cfg.cap < sobj.num len * ew := by omega
+      have hres : (Stmt.resize f ew (.fld len)).exec cfg ⟨sobj, sinp, spos, sgood, seof, sshort, sout, .none⟩ =
+          { (⟨sobj, sinp, spos, sgood, seof, sshort, sout, .none⟩ : St) with obj := sobj.setBuf f (List.take (sobj.num len * ew) (sobj.buf f) ++
+              zeros (sobj.num len * ew - (sobj.buf f).length)) } := by
+        simp [Stmt.exec, Expr.eval, hc']
+      rw [hres]
+      have hbl : ((sobj.setBuf f (List.take (sobj.num len * ew) (sobj.buf f) ++
+          zeros (sobj.num len * ew - (sobj.buf f).length))).buf f).length = sobj.num len * ew := by
+        simp; omega
+      have hr := exec_rdBuf cfg hs f (cntExpr ew len) (sobj.num len * ew)
+        { (⟨sobj, sinp, spos, sgood, seof, sshort, sout, .none⟩ : St) with obj := sobj.setBuf f (List.take (sobj.num len * ew) (sobj.buf f) ++
+            zeros (sobj.num len * ew - (sobj.buf f).length)) }
+        (by simp [cntExpr_eval]) hbl rfl hpos
+      simp only [if_true, hc, true_and]
+      by_cases hw : spos + sobj.num len * ew ≤ sinp.length
+      · have hw' : sobj.num len * ew ≤ sinp.length - spos := by omega
+        simp only [hw, if_true] at hr
+        simp only [hw', if_true, hr.2.2.2.1]
+        refine ⟨?_, hr.2.1, by rw [hr.2.2.1]; exact hw, ?_, hr.2.2.2.1, hr.2.2.2.2.1, hr.2.2.2.2.2⟩
+        · rw [hr.1]
           simp only [Obj.setBuf]
           congr 1
           funext g; split <;> rfl
-        · simp [List.drop_drop]
-      · have hw' : ¬ st.obj.num len * ew ≤ st.inp.length - st.pos := by omega
-        simp [hw, hw', h0]
-    · have hc' : cfg.cap < st.obj.num len * ew := by omega
-      simp [hc, hc', h0]
+        · rw [hr.2.2.1]; simp [List.drop_drop]
+      · have hw' : ¬ sobj.num len * ew ≤ sinp.length - spos := by omega
+        simp only [hw, if_false] at hr
+        simp only [hw', if_false]
+        by_cases hh : ((Stmt.rdBuf f (cntExpr ew len)).exec cfg { (⟨sobj, sinp, spos, sgood, seof, sshort, sout, .none⟩ : St) with obj := sobj.setBuf f (List.take (sobj.num len * ew) (sobj.buf f) ++
+            zeros (sobj.num len * ew - (sobj.buf f).length)) }).halt = .none
+        · simp only [hh, if_true]; exact Or.inl hr
+        · simp only [hh, if_false]; exact Or.inr hh
+    · have hc' : cfg.cap < sobj.num len * ew := by omega
+      simp [Stmt.exec, Expr.eval, hc, hc']
   | pad g k =>
     simp only [decItem, Item.rdStmts, exec_block_cons, exec_block_nil, Stmt.exec, Expr.eval, St.sseek, hs,
       Bool.false_and, Bool.false_eq_true, if_false, h0, if_true]
